@@ -417,11 +417,16 @@ func TestC12(t *testing.T) {
 	defer restore()
 	var scripts []c12Script
 	intervals := []time.Duration{time.Second, 2500 * time.Millisecond}
+	maxN, exLen := 3, 3
+	if !rec.Quick() {
+		intervals = append(intervals, 300*time.Millisecond, 7*time.Second)
+		maxN, exLen = 5, 4
+	}
 	var extraSeqs [][]int
 	var bx func(cur []int)
 	bx = func(cur []int) {
 		extraSeqs = append(extraSeqs, append([]int(nil), cur...))
-		if len(cur) == 3 {
+		if len(cur) == exLen {
 			return
 		}
 		for x := 0; x < nExtras; x++ {
@@ -430,7 +435,7 @@ func TestC12(t *testing.T) {
 	}
 	bx(nil)
 	k := 0
-	for N := 0; N <= 3; N++ {
+	for N := 0; N <= maxN; N++ {
 		for _, iv := range intervals {
 			for at := 0; at <= N+2; at++ {
 				for reply := 0; reply < nReplies; reply++ {
@@ -490,7 +495,7 @@ func TestC12(t *testing.T) {
 		}
 	})
 	rec.Exhaustive("scripts")
-	rec.Suite("second-dial", 2*4*rec.N(2, 20), func(c *ev.Case) {
+	rec.Suite("second-dial", 2*4*rec.N(2, 200), func(c *ev.Case) {
 		answers := c.I%2 == 0
 		dupAt := []time.Duration{0, 100 * time.Millisecond, 500 * time.Millisecond, 900 * time.Millisecond}[(c.I/2)%4]
 		c.Class("second-dial/peer2-answers=%v/dup-at=%v", answers, dupAt)
